@@ -61,6 +61,10 @@ def render(e, names):
         return "tao::pegtl::raise< %s >" % render(a[0], names)   # ::raise(int) from <csignal> is also in scope
     if op == "action":
         return "action< %s, %s >" % ("vt::fam%d" % a[0] if a[0] else "nothing", ", ".join(render(x, names) for x in a[1:]))
+    if op == "state":
+        return "state< vt::S1, %s >" % ", ".join(render(x, names) for x in a)
+    if op == "control":
+        return "control< vt::%s, %s >" % (["", "tc_hid", "tc_hid_uw", "tc_full", "tc_full_uw"][a[0]], ", ".join(render(x, names) for x in a[1:]))
     if op in ("if_apply", "apply", "apply0"):
         return "%s< %s >" % (op, ", ".join(x if isinstance(x, str) else render(x, names) for x in a))
     if op in ("try_catch_type_return_false", "try_catch_type_raise_nested"):
@@ -275,6 +279,8 @@ def rand_expr(rng, atoms, ops, depth, nrefs=0, p_ref=0.25):
         return (name,) + tuple(sub() for _ in range(rng.choice([2, 2, 3])))
     if spec == "act":       # action< famN, R >
         return (name, rng.choice([0, 1, 2]), sub())
+    if spec == "ctl":       # control< tc_x, R >
+        return (name, rng.choice([1, 2, 3, 4]), sub())
     if spec == "ifa":       # if_apply< R, As... >
         n = rng.choice([0, 1, 1, 2])
         return (name, sub()) + tuple(rng.choice(["vt::ia_v< %d >", "vt::ia_b< %d >"]) % rng.randint(1, 4) for _ in range(n))
